@@ -9,13 +9,15 @@ from vlib import common
 GO = dict(module="extras", pkg="obfs", pkgname="obfs",
           files={"zz_verif_c13_test.go": "c13/c13_test.go"}, run="TestVerifC13")
 PARAMS_NAME = "ParamsC13"
-HEADER = ("From Hy Require Import lib.Harness lib.Blake2b model.C13_Salamander corr.C13_Corr.\n"
+HEADER = ("From Hy Require Import lib.Harness lib.Blake2b model.C13_Salamander model.C13_Lock corr.C13_Corr.\n"
           "From Coq Require Import ZArith.\nLocal Open Scope N_scope.\n")
 RULE = ("seeded generator over an in-memory PacketConn pair wrapped with WrapPacketConnSalamander: keys of 4..64 bytes (plus 120/121/200-byte "
         "keys that put key||salt on and over the 128-byte BLAKE2b block boundary), payload lengths {1,2,31,32,33,63,64,65,1199,1200,2039,2040}+random, "
         "oversize/empty writes, caller buffers {2048,1500,64,10,1,0}; junk streams (datagrams of 0..9 bytes, truncated >2048-byte datagrams, "
-        "underlying read/write errors, packets built by a python hashlib reference obfuscator) mixed with valid packets; direct "
-        "Obfuscate/Deobfuscate calls with short output buffers; short keys; concurrent readers+writers+junk on both sockets. The wire bytes are "
+        "underlying read/write errors, packets built by a python hashlib reference obfuscator) mixed with valid packets; write-fault histories "
+        "(the socket below fails one or several writes, then further valid writes that must reach the wire and arrive unchanged; every call of "
+        "the wrapper runs under a real-time watchdog, a call that never returns is a verdict with the case as replay); direct "
+        "Obfuscate/Deobfuscate calls with short output buffers; short keys; concurrent readers+writers+junk on both sockets (with and without scripted write faults below, writers retrying). The wire bytes are "
         "captured below the wrapper, the random salt is read back from them, and each case is compared with (1) the Coq model with the Gallina "
         "BLAKE2b inside the kernel, (2) python hashlib.blake2b, (3) the property predicate in the Go harness (x/crypto blake2b called directly). "
         "Non-trivial = at least one packet crossed the wrapper pair or junk was offered. Distinct = distinct JSON case.")
@@ -25,7 +27,8 @@ ASSUMPTIONS = [
     "math/rand's Read fills the 8 salt bytes (the salt is an input of the model, read back from the wire); the salt's randomness quality is not examined",
     "golang.org/x/crypto/blake2b.Sum256 = lib/Blake2b.v blake2b256 (RFC 7693 vectors in Coq; compared on every packet of the correspondence run)",
 ]
-TRUSTED = ["modelled rather than verified: extras/obfs/salamander.go and obfsPacketConn.ReadFrom/WriteTo of extras/obfs/conn.go (hand transcription in coq/model/C13_Salamander.v)",
+TRUSTED = ["modelled rather than verified: extras/obfs/salamander.go and obfsPacketConn.ReadFrom/WriteTo of extras/obfs/conn.go (hand transcription in coq/model/C13_Salamander.v; "
+           "their use of writeMutex/readMutex in coq/model/C13_Lock.v, tied by a TryLock observation after every returned call)",
            "python hashlib.blake2b as the second oracle of the wire format"]
 PER_SHARD = 12
 EXTRA_TARGETS = ["corr/C13_Corr.vo"]
@@ -118,8 +121,38 @@ def stream_case(rng, kernel=True):
             items.append({"t": "raw", "d": gend(rng, rng.choice([2047, 2048, 2049, 2100, 4096])), "addr": rng.randint(1, 60000), "err": 0})
         else:
             items.append(junk_item(rng, 0))
+    # a failed underlying write is followed by a write that must go through (the socket is still usable)
+    werrs = [j for j, it in enumerate(items) if it["t"] == "w" and it["err"]]
+    if werrs and not any(it["t"] == "w" and not it["err"] and 1 <= it["d"]["n"] <= 2040 for it in items[werrs[-1] + 1:]) and rng.random() < 0.85:
+        items.append(w_item(rng, rng.choice([1, 2, 33, 100, rng.choice(BOUNDARY)])))
     plen = rng.choice([2048, 2048, 2048, 2048, 1500, 2040, 2039, 64, 10, 1, 0, 4096])
     return {"k": "st", "psk": key, "plen": plen, "udp": rng.random() < 0.3, "items": items, "kernel": kernel}
+
+
+def werr_case(rng, kernel=True):
+    """write-fault histories: the socket below fails one write (any length, also the first or several in a row, any error code),
+    and the caller keeps writing: every later valid packet must reach the wire in the specified format and arrive unchanged"""
+    key = rkey(rng)
+    psk = bs(key)
+    small = [1, 2, 5, 31, 32, 33, 64, 100]
+    items = []
+    for _ in range(rng.choice([0, 0, 1, 2])):
+        items.append(rng.choice([lambda: w_item(rng, rng.choice(small)), lambda: junk_item(rng), lambda: ref_item(rng, psk, rng.choice([1, 7, 33]))])())
+    for _burst in range(rng.choice([1, 1, 1, 2, 3])):
+        for _ in range(rng.choice([1, 1, 1, 2])):
+            items.append(w_item(rng, rng.choice([1, 40, 1200, 2040, rng.choice([0, 2041, 3000]), rng.randint(1, 2040)]), err=rng.randint(1, 50)))
+        for _ in range(rng.randint(1, 3)):
+            r = rng.random()
+            if r < 0.75:
+                n = rng.choice(small + [rng.choice(BOUNDARY)]) if kernel else rng.choice(small + BOUNDARY + [rng.randint(1, 2040)])
+                items.append(w_item(rng, n))
+            elif r < 0.9:
+                items.append(junk_item(rng))
+            else:
+                items.append(ref_item(rng, psk, rng.choice([1, 2, 32, 80])))
+        if items[-1]["t"] != "w" or items[-1]["err"]:
+            items.append(w_item(rng, rng.choice(small)))
+    return {"k": "st", "psk": key, "plen": rng.choice([2048, 2048, 2048, 2040, 1500]), "udp": rng.random() < 0.3, "items": items, "kernel": kernel}
 
 
 def gen(rng, tier):
@@ -165,6 +198,11 @@ def gen(rng, tier):
     for _ in range(30 * scale):
         cases.append({"k": "st", "psk": rkey(rng), "plen": 2048, "udp": rng.random() < 0.3, "kernel": True,
                       "items": [w_item(rng, rng.randint(1, 2040)) for _ in range(rng.randint(1, 3))]})
+    # --- write faults of the socket below, then more writes (a few in the kernel, many more against the oracles)
+    for _ in range(8 * scale):
+        cases.append(werr_case(rng))
+    for _ in range(80 * scale):
+        cases.append(werr_case(rng, kernel=False))
     # --- many more, judged by the Go predicate and the python hashlib oracle only
     for _ in range(700 * scale):
         cases.append(stream_case(rng, kernel=False))
@@ -172,11 +210,13 @@ def gen(rng, tier):
         cases.append({"k": "st", "psk": rkey(rng), "plen": 2048, "udp": False, "kernel": False,
                       "items": [w_item(rng, rng.choice(BOUNDARY + [rng.randint(1, 2040)] * 3))]})
     # --- concurrency: readers + writers + junk on both wrapped sockets at once
+    # (every second one with scripted write faults of the sockets below: every werr-th underlying write fails and the writer retries)
     for j in range(2 if tier == "quick" else 12):
         big = tier != "quick"
         cases.append({"k": "conc", "psk": rkey(rng), "w": rng.choice([2, 3, 4]), "r": rng.choice([1, 2, 3]),
                       "per": rng.choice([150, 400]) if big else rng.choice([25, 40]), "junk": 200 if big else 30,
-                      "lens": sorted(set([1, 2, 31, 32, 33, 1200, 2040] + [rng.randint(1, 2040) for _ in range(4)])), "kernel": False})
+                      "lens": sorted(set([1, 2, 31, 32, 33, 1200, 2040] + [rng.randint(1, 2040) for _ in range(4)])), "kernel": False,
+                      "werr": rng.choice([5, 7, 11, 13]) if j % 2 == 1 else 0})
     # --- many goroutines on one obfuscator (shared key-input buffer and salt source)
     for j in range(2 if tier == "quick" else 6):
         cases.append({"k": "hammer", "psk": rkey(rng), "g": 8, "iters": 4000 if tier == "quick" else 20000, "kernel": False})
@@ -315,8 +355,8 @@ def to_coq(c, o):
         wi = 0
         for it in c["items"]:
             if it["t"] == "w":
-                if wi >= len(ws):
-                    return None
+                if wi >= len(ws) or ws[wi].get("stuck"):
+                    return None     # a call never returned (already a violation): nothing to compare
                 w = ws[wi]
                 wi += 1
                 wire = bytes.fromhex(w["wire"])
@@ -326,7 +366,9 @@ def to_coq(c, o):
             else:
                 items.append("IRaw %s %d %s" % (cb(it["d"]), it["addr"], copt(it["err"])))
         robs = ["mkRO %d %s %d %s" % (r["n"], cobs(bytes.fromhex(r["data"])), r["addr"], copt(r["err"])) for r in (o.get("reads") or [])]
-        return "CStream %s %d [%s] [%s] [%s]" % (cb(c["psk"]), c["plen"], "; ".join(items), "; ".join(wobs), "; ".join(robs))
+        cbools = lambda l: "[%s]" % "; ".join("true" if x else "false" for x in (l or []))
+        return "CStream %s %d [%s] [%s] [%s] %s %s" % (cb(c["psk"]), c["plen"], "; ".join(items), "; ".join(wobs), "; ".join(robs),
+                                                       cbools(o.get("wlocks")), cbools(o.get("rlocks")))
     return None
 
 
@@ -341,11 +383,14 @@ def klass(c, o):
     if k == "deobf":
         return "deobf:" + ("rejected" if o.get("n") == 0 else "ok")
     if k in ("conc", "hammer"):
-        return k
+        return k + ("+wfaults" if c.get("werr") else "")
     nj = sum(1 for it in c["items"] if it["t"] == "raw" and not it["err"] and bs(it["d"])[:BUF].__len__() <= SALT)
     nr = len(o.get("reads") or [])
     ne = sum(1 for it in c["items"] if it["err"])
-    return "st%s:%s%s%s" % ("" if c.get("kernel") else "-oracle", "junk+" if nj else "", "err+" if ne else "", "reads=%d" % min(nr, 3))
+    we = [j for j, it in enumerate(c["items"]) if it["t"] == "w" and it["err"]]
+    wf = bool(we) and any(it["t"] == "w" and not it["err"] for it in c["items"][we[0] + 1:])
+    return "st%s:%s%s%s%s" % ("" if c.get("kernel") else "-oracle", "junk+" if nj else "", "err+" if ne else "", "wfault-then-write+" if wf else "",
+                             "reads=%d" % min(nr, 3))
 
 
 def nontrivial(c, o):
@@ -360,6 +405,11 @@ def nontrivial(c, o):
 
 FP_CLASSES = [
     # (substring of the verdict text, stable fingerprint); first match wins. One VIOLATION line per class.
+    ("made no progress", "salamander-concurrent-calls-never-return"),
+    ("did not return", "salamander-call-never-returns"),
+    ("did not finish within", "salamander-call-never-returns"),
+    ("Mutex is still held", "salamander-mutex-left-locked"),
+    ("Mutex is held", "salamander-mutex-left-locked"),
     ("zero-length datagram returned to the caller", "salamander-empty-datagram-surfaces"),
     ("junk surfaced", "salamander-junk-surfaces"),
     ("panic", "salamander-panic"),
@@ -576,7 +626,8 @@ LEVEL_TEXT = ("Machine-checked Coq theorems over a Gallina model of salamander.g
               "wrapper with the same key - proved for an arbitrary hash function -, the wire packet is salt || payload XOR BLAKE2b-256(key||salt) "
               "cycled with the Gallina RFC 7693 BLAKE2b (RFC and hashlib vectors checked in the kernel), reported counts are the original lengths, "
               "datagrams of 0..8 bytes never surface whatever surrounds them, keys under 4 bytes are refused, nothing panics, and the surfaced sequence "
-              "does not depend on how concurrent readers are scheduled. The model is tied to /repo on every run by regenerated constants and a "
+              "does not depend on how concurrent readers are scheduled; for every history of writes (with any outcome of the socket below) and read iterations every "
+              "call returns and both mutexes are free again (a failed underlying write leaves the socket usable). The model is tied to /repo on every run by regenerated constants and a "
               "differential run of the Go code (x/crypto blake2b) against the model inside the Coq kernel and against python hashlib.")
 LEVEL_NOTE = ("Trusted: Coq kernel + vm_compute; hand-written model (tie is sampled differential testing + regenerated Params); python/Go glue. "
               "No axioms (all theorems closed under the global context). Not proved: atomicity of the mutex-protected sections (read from the source, "
